@@ -39,7 +39,8 @@ def judge(ctx, cfgs, tasks, results):
                 any_data = True
             for vkey, text in (found or []):
                 kind = vkey.split(":")[0]
-                ctx.violation("%s:%s:%s" % (kind, name, vkey.split(":", 1)[1]),
+                k = vkey.split(":", 1)[1]
+                ctx.violation("rtq-ambiguous-text" if EP.rtq_ambiguous(k) else "%s:%s:%s" % (kind, name, k),
                               "%s after operation %d %r of %r: %s" % (name, i, op, [x[:2] for x in ops[:i]], text),
                               dict(kind="history", config=name, ops=[list(x) for x in ops[:i + 1]], defaults=dflt))
         ctx.case(("%s|%r" % (name, ops)) if any_data else None)
